@@ -3,13 +3,24 @@
 // Level fault_enumeration. For every flow of the catalogue (flows.go: every request type of every multi-request flow is
 // a flow of its own) x both routers x every configuration variant of the tier, the request under test is first run
 // fault-free in a fresh world to learn how many storage calls it makes (N) and which methods; then it is re-run in a
-// fresh world once for every k in 1..N x the three vstore fault kinds ("fail the k-th call") and once per distinct
-// storage method x fault kind ("fail every call of M"). Prerequisite requests (authorize/login/callback before a code
-// exchange, minting the tokens that userinfo / introspection / revocation use ...) always run un-faulted: the plan is
-// armed for the request under test only. A case counts only if the fault fired during that request.
+// fresh world once for every k in 1..N x the error-value families ("fail the k-th call") and once per distinct
+// storage method x the three basic fault kinds ("fail every call of M"). Prerequisite requests (authorize/login/callback
+// before a code exchange, minting the tokens that userinfo / introspection / revocation use ...) always run un-faulted:
+// the plan is armed for the request under test only. A case counts only if the fault fired during that request.
+//
+// The error VALUE of the failing call is a dimension (errkinds.go): plain, wrapped context.DeadlineExceeded,
+// *oidc.Error{server_error}, and - for the first variants - wrapped context.Canceled, an error implementing the
+// library's op.StorageNotFoundError marker, op.StatusError, *oidc.Error{access_denied}.
+//
+// Client identification is a dimension of the catalogue: one flow per endpoint that identifies the client x
+// {Basic, assertion} is repeated with client_id ALSO in the form (flows.go, formIDBases).
 //
 // Readiness (GET /ready, Storage.Health) is part of the catalogue: behind the plain provider and behind an
 // application-defined provider whose Probes() returns several probes in gated completion orders (ready.go).
+//
+// Overlap histories (overlap.go): storage calls that fail without any injection because an identical request went
+// through while this one was parked before its j-th storage call (every j), on a storage with idempotent and with
+// strict deletes; every request during which a storage call failed is judged by the same oracle.
 package main
 
 import (
@@ -23,17 +34,52 @@ import (
 
 	jose "github.com/go-jose/go-jose/v4"
 
+	"github.com/zitadel/oidc/v3/pkg/op"
+
 	"verif/internal/ev"
 	"verif/internal/keys"
 	"verif/internal/mon"
 	"verif/internal/opdrv"
+	"verif/internal/sched"
 	"verif/internal/vstore"
 )
 
 // C10_TRACE=1 prints one line per judged case (development aid, most useful together with --replay).
 var traceCases = os.Getenv("C10_TRACE") != ""
 
-var kindNames = [vstore.NumFaultKinds]string{"plain-error", "context-deadline", "oidc-server_error"}
+// errKind is one family of error values a storage call can fail with. The first three are vstore's fault kinds and are
+// crossed with every plan of every cell; the others (errkinds.go) are literal error values - a cancellation, the
+// library's own marker interface and error types - crossed with every position k of the cells of the quick variants.
+type errKind struct {
+	Name  string
+	Kind  vstore.FaultKind
+	Err   func() error // nil: Kind.Err()
+	Extra bool
+}
+
+func (k errKind) plan(p vstore.FaultPlan) vstore.FaultPlan {
+	p.Kind = k.Kind
+	p.Err = nil
+	if k.Err != nil {
+		p.Err = k.Err()
+	}
+	return p
+}
+
+func kindByName(name string) int {
+	for i, k := range errKinds {
+		if k.Name == name {
+			return i
+		}
+	}
+	return -1
+}
+
+// planLit is the positional part of a fault plan as it is written into a witness (the error value is named by fault_kind).
+type planLit struct {
+	At     int
+	Method string
+}
 
 // combo is one (variant, flow, router) cell; its fault-free run fixes the enumeration of its cases.
 type combo struct {
@@ -49,7 +95,8 @@ type combo struct {
 
 type caseDef struct {
 	combo int
-	plan  vstore.FaultPlan
+	plan  vstore.FaultPlan // At / Method only; the error value comes from errKinds[ek]
+	ek    int
 }
 
 type witness struct {
@@ -58,7 +105,7 @@ type witness struct {
 	FlowKey  string            `json:"flow_as_reported"`
 	Variant  string            `json:"variant"`
 	VI       int               `json:"variant_index"`
-	Plan     vstore.FaultPlan  `json:"plan"`
+	Plan     planLit           `json:"plan"`
 	Kind     string            `json:"fault_kind"`
 	Failed   string            `json:"failed_method"`
 	User     string            `json:"user"`
@@ -68,6 +115,7 @@ type witness struct {
 	Journal  []string          `json:"storage_calls_of_the_faulted_request"`
 	Baseline []string          `json:"storage_calls_fault_free"`
 	Extra    map[string]string `json:"note,omitempty"`
+	Overlap  *overlapLit       `json:"overlap,omitempty"`
 }
 
 type harness struct {
@@ -75,10 +123,17 @@ type harness struct {
 	flows    []*flowDef
 	variants []variant
 	quickVar int // variants [0,quickVar) carry the mandatory scenarios
+	extraVar int // variants [0,extraVar) are crossed with the extra error-value families as well
 	notFired atomic.Int64
 	baseBad  atomic.Int64
 	executed atomic.Int64
+	ovExecuted atomic.Int64
 }
+
+var (
+	errInvalidRefreshToken = op.ErrInvalidRefreshToken.Error()
+	errDuplicateUserCode   = op.ErrDuplicateUserCode.Error()
+)
 
 func variantsFor(thorough bool) []variant {
 	vs := []variant{
@@ -281,13 +336,17 @@ func (h *harness) cases(c *combo) []caseDef {
 		return nil
 	}
 	for k := 1; k <= c.n; k++ {
-		for kind := vstore.FaultKind(0); kind < vstore.NumFaultKinds; kind++ {
-			out = append(out, caseDef{combo: c.idx, plan: vstore.FaultPlan{At: k, Kind: kind}})
+		for ek, kd := range errKinds {
+			if !kd.Extra || c.vi < h.extraVar {
+				out = append(out, caseDef{combo: c.idx, plan: vstore.FaultPlan{At: k}, ek: ek})
+			}
 		}
 	}
 	for _, m := range c.methods {
-		for kind := vstore.FaultKind(0); kind < vstore.NumFaultKinds; kind++ {
-			out = append(out, caseDef{combo: c.idx, plan: vstore.FaultPlan{Method: m, Kind: kind}})
+		for ek, kd := range errKinds {
+			if !kd.Extra {
+				out = append(out, caseDef{combo: c.idx, plan: vstore.FaultPlan{Method: m}, ek: ek})
+			}
 		}
 	}
 	return out
@@ -306,7 +365,8 @@ func (h *harness) runCase(c *combo, cd caseDef, caseIdx int) {
 	f, v := h.flows[c.fi], h.variants[c.vi]
 	rn := opdrv.RouterNames[c.router]
 	fname := f.keyName(v.JWT || f.ForceJWT)
-	plan := cd.plan
+	ek := errKinds[cd.ek]
+	plan := ek.plan(cd.plan)
 	x := h.execute(c, &plan)
 	h.executed.Add(1)
 	if x.err != nil {
@@ -333,12 +393,19 @@ func (h *harness) runCase(c *combo, cd caseDef, caseIdx int) {
 	}
 	vd := judge(f, x.e, x.resp, x.journal)
 	if traceCases {
-		fmt.Printf("TRACE %s %s %s %s/%s failed=%s -> %s%s | %s\n", rn, fname, v, planName(plan), kindNames[plan.Kind], failed, vd.Outcome, vd.Class, brief(x.resp, 300))
+		fmt.Printf("TRACE %s %s %s %s/%s failed=%s -> %s%s | %s\n", rn, fname, v, planName(plan), ek.Name, failed, vd.Outcome, vd.Class, brief(x.resp, 300))
 	}
-	run.Distinct(rn + "|" + fname + "|" + v.String() + "|" + planName(plan) + "|" + kindNames[plan.Kind])
+	run.Distinct(rn + "|" + fname + "|" + v.String() + "|" + planName(plan) + "|" + ek.Name)
 	run.Count("failed_method", failed)
 	run.Observed("method-faulted:" + failed)
-	run.Count("fault_kind", kindNames[plan.Kind])
+	run.Count("fault_kind", ek.Name)
+	run.Observed("fault-kind:" + rn + ":" + ek.Name)
+	if ek.Extra {
+		run.Count("extra_fault_kind_by_class:"+ek.Name, f.Class+" -> "+fmt.Sprint(x.resp.Status))
+	}
+	if strings.HasSuffix(f.Name, formIDSuffix) {
+		run.Count("form_client_id_flows:"+rn, f.Name+": "+failed+" -> "+fmt.Sprint(x.resp.Status))
+	}
 	run.Count("flow_class:"+rn, f.Class)
 	run.Count("status", fmt.Sprint(x.resp.Status))
 	if plan.Method != "" {
@@ -350,7 +417,7 @@ func (h *harness) runCase(c *combo, cd caseDef, caseIdx int) {
 		run.Count("grey", "superfluous-WriteHeader")
 	}
 	mk := func() witness {
-		w := witness{Router: rn, Flow: f.Name, FlowKey: fname, Variant: v.String(), VI: c.vi, Plan: plan, Kind: kindNames[plan.Kind], Failed: failed, User: x.e.user,
+		w := witness{Router: rn, Flow: f.Name, FlowKey: fname, Variant: v.String(), VI: c.vi, Plan: planLit{At: plan.At, Method: plan.Method}, Kind: ek.Name, Failed: failed, User: x.e.user,
 			Prereq: x.e.steps, Request: x.e.lit, Response: respDoc(x.resp), Journal: journalLines(x.journal), Baseline: c.journal}
 		if ps := x.e.probes; ps != nil {
 			w.Extra = map[string]string{"probes": ps.describe(), "probe_events_in_order": ps.Trace()}
@@ -416,7 +483,7 @@ func (h *harness) runCase(c *combo, cd caseDef, caseIdx int) {
 	}
 	if f.Class == "device_poll" && failed == "GetDeviceAuthorizatonState" {
 		// mechanism named in the anchors (not demanded by the statement, so only recorded)
-		run.Count("device_poll_state_fault", kindNames[plan.Kind]+" -> "+vd.OAuth)
+		run.Count("device_poll_state_fault", ek.Name+" -> "+vd.OAuth)
 		if (plan.Kind == vstore.FaultDeadline) == (vd.OAuth == "slow_down") && (vd.OAuth == "slow_down" || vd.OAuth == "access_denied") {
 			run.Observed("device-poll:" + vd.OAuth)
 		} else {
@@ -436,14 +503,19 @@ func (h *harness) runCase(c *combo, cd caseDef, caseIdx int) {
 func main() {
 	run := ev.Start("C10", "fault_enumeration")
 	thorough := run.Tier == ev.Thorough
-	h := &harness{run: run, flows: catalogue(), variants: variantsFor(thorough), quickVar: 3}
-	run.SetRule("complete enumeration: for every flow of the catalogue x {provider, legacy} router x every variant (access-token type, signing algorithm, storage capabilities) (readiness: x 8 probe layouts) the request under test is run fault-free in a fresh world to learn its storage journal (N calls), then re-run in a fresh world for every k in 1..N x 3 fault kinds and for every distinct storage method (fail every call) x 3 fault kinds; prerequisites run un-faulted; a case is non-trivial iff the fault fired during the request under test; distinct = distinct (router, flow, variant, plan, fault kind) vectors that fired")
+	sched.Install() // the library's spans and the storage entrances become yield points (overlap.go)
+	h := &harness{run: run, flows: catalogue(), variants: variantsFor(thorough), quickVar: 3, extraVar: run.N(2, 4)}
+	ovCells := h.overlapCells(run.N(2, 4))
+	run.SetRule("complete enumeration: for every flow of the catalogue x {provider, legacy} router x every variant (access-token type, signing algorithm, storage capabilities) (readiness: x 8 probe layouts) the request under test is run fault-free in a fresh world to learn its storage journal (N calls), then re-run in a fresh world for every k in 1..N x the error-value families (3 basic kinds in every variant; 4 further literal error values - wrapped context.Canceled, op.StorageNotFoundError marker, op.StatusError, *oidc.Error{access_denied} - in the first variants) and for every distinct storage method (fail every call) x 3 basic kinds; prerequisites run un-faulted; a case is non-trivial iff the fault fired during the request under test; distinct = distinct (router, flow, variant, plan, fault kind) vectors that fired. Overlap histories: for every state-consuming flow (callback, token, device poll, revocation, end_session) x router x the first variants x {idempotent, strict} DeleteAuthRequest the request is served alone under sched.Trace, then in a fresh world parked before its j-th storage call (every j, and once never) while an identical request is served completely; a request counts iff one of ITS storage calls came back with an error (nothing injected)")
 	run.Assume("vstore consults the fault plan before the real operation, so a failed call has no effect on storage state",
 		"fault kinds: plain error, wrapped context.DeadlineExceeded, *oidc.Error{server_error}; op.ErrInvalidRefreshToken from GetRefreshTokenInfo is normal control flow and never injected",
 		"introspection: 200 {\"active\":false} is accepted as the fail-closed answer (DESIGN.md 6a); discovery is not a flow of the statement and is excluded",
 		"readiness: Storage.Health is a storage call of GET /ready; besides the plain provider (one probe) the request runs behind an application-defined OpenIDProvider whose Probes() returns the storage probe plus always-succeeding application probes, in several list orders and - forced by gates inside the application probes - finishing before / after / while the storage probe fails; the gates select histories only, the verdict is the general one (a failed Health => error answer)",
 		"an error redirect is accepted only to the redirect URI of the authorization request, and at the authorization endpoint only if the client had been loaded before the fault",
-		"single faults per request (one position, or one method failing on every call); handlers are called in-process")
+		"single faults per request (one position, or one method failing on every call); handlers are called in-process",
+		"the error value of a failed call is arbitrary: besides the three basic kinds, an error wrapping context.Canceled (the request's own context stays alive), an error implementing op.StorageNotFoundError, an op.StatusError(503) and an *oidc.Error{access_denied} are injected at every position; op.ErrDuplicateUserCode from StoreDeviceAuthorization is, like op.ErrInvalidRefreshToken, documented control flow and never injected nor counted as a failure",
+		"client_id additionally in the form of a request that authenticates with Basic credentials or an assertion is a legal request (RFC 6749 requires it only 'if the client is not authenticating'); its fault-free answer must be the success answer, else the run is inconclusive",
+		"overlap histories: the second request runs to completion while the first is parked OUTSIDE the storage (sched.Preempt at the storage entrances), so the journal splits by the event counter; a watchdog expiry or a trace that differs from the request served alone is inconclusive; a storage whose DeleteAuthRequest reports 'not found' for a request that is already gone (vstore.SetStrictDelete) is a legal storage; requests none of whose storage calls failed are counted, never judged (single use is C06's)")
 	run.Extra("flows", len(h.flows))
 	run.Extra("variants", len(h.variants))
 
@@ -465,12 +537,25 @@ func main() {
 			os.Exit(2)
 		}
 		found := false
+		if w.Overlap != nil {
+			for _, c := range ovCells {
+				if h.flows[c.fi].Name == w.Flow && opdrv.RouterNames[c.router] == w.Router && h.variants[c.vi].String() == w.Variant && c.strict == w.Overlap.Strict {
+					found = true
+					h.ovBaseline(c)
+					for j := range c.ks {
+						h.ovRunCase(c, ovCase{cell: c.idx, j: j}, int(rc))
+					}
+				}
+			}
+		}
 		for _, c := range combos {
-			if h.flows[c.fi].Name == w.Flow && opdrv.RouterNames[c.router] == w.Router && h.variants[c.vi].String() == w.Variant {
+			if w.Overlap == nil && h.flows[c.fi].Name == w.Flow && opdrv.RouterNames[c.router] == w.Router && h.variants[c.vi].String() == w.Variant {
 				found = true
 				h.baseline(c)
 				// the recorded case first, then the rest of its cell
-				h.runCase(c, caseDef{combo: c.idx, plan: w.Plan}, int(rc))
+				if ek := kindByName(w.Kind); ek >= 0 && c.usable {
+					h.runCase(c, caseDef{combo: c.idx, plan: vstore.FaultPlan{At: w.Plan.At, Method: w.Plan.Method}, ek: ek}, int(rc))
+				}
 				for i, cd := range h.cases(c) {
 					h.runCase(c, cd, i)
 				}
@@ -509,6 +594,15 @@ func main() {
 		run.Mandatory("method-faulted:" + m)
 	}
 	run.Mandatory("outcome:error-status", "outcome:error-redirect", "outcome:introspection-inactive", "device-poll:slow_down", "device-poll:access_denied")
+	for _, k := range errKinds {
+		run.Mandatory("fault-kind:provider:"+k.Name, "fault-kind:legacy:"+k.Name)
+	}
+	for _, rn := range opdrv.RouterNames {
+		for _, m := range []string{"AuthRequestByCode", "AuthRequestByID", "DeleteAuthRequest", "TokenRequestByRefreshToken", "CreateAccessAndRefreshTokens"} {
+			run.Mandatory("overlap-failure:" + rn + ":" + m)
+		}
+		run.Mandatory("overlap-strict-delete-failed:"+rn+":token", "overlap-strict-delete-failed:"+rn+":callback")
+	}
 
 	// ---- phase 1: fault-free runs
 	ev.Parallel(len(combos), 0, func(_ int, i int) {
@@ -556,7 +650,40 @@ func main() {
 	})
 	run.Extra("cases_executed", h.executed.Load())
 	run.Extra("faults_not_fired", h.notFired.Load())
-	complete := h.baseBad.Load() == 0 && h.notFired.Load() == 0 && int(h.executed.Load()) == len(all) && len(all) > 0
+
+	// ---- phase 3: overlap histories (overlap.go): the request alone under Trace, then parked before each storage call
+	ev.Parallel(len(ovCells), 0, func(_ int, i int) {
+		if pi := mon.Catch(func() { h.ovBaseline(ovCells[i]) }); pi != nil {
+			once.Do(func() { run.HarnessBug("panic in check code (overlap baseline): " + pi.Value + " at " + pi.Frame) })
+		}
+	})
+	var ovAll []ovCase
+	ovUsable := 0
+	for _, c := range ovCells {
+		c.first = len(ovAll)
+		if c.skipped {
+			ovUsable++
+		}
+		if c.usable {
+			ovUsable++
+			for j := range c.ks {
+				ovAll = append(ovAll, ovCase{cell: c.idx, j: j})
+			}
+		}
+	}
+	ev.Parallel(len(ovAll), 0, func(_ int, i int) {
+		oc := ovAll[i]
+		if pi := mon.Catch(func() { h.ovRunCase(ovCells[oc.cell], oc, len(all)+i) }); pi != nil {
+			once.Do(func() { run.HarnessBug("panic in check code (overlap case): " + pi.Value + " at " + pi.Frame) })
+		}
+	})
+	run.Extra("overlap_cells_total", len(ovCells))
+	run.Extra("overlap_cells_enumerated", ovUsable)
+	run.Extra("overlap_histories_planned", len(ovAll))
+	run.Extra("overlap_histories_executed", h.ovExecuted.Load())
+	run.Extra("yield_points_passed", sched.Points())
+	complete := h.baseBad.Load() == 0 && h.notFired.Load() == 0 && int(h.executed.Load()) == len(all) && len(all) > 0 &&
+		ovUsable == len(ovCells) && int(h.ovExecuted.Load()) == len(ovAll)
 	run.SetExhaustive(complete)
 	if !complete {
 		run.Extra("explanation", fmt.Sprintf("enumeration incomplete: %d unusable fault-free runs, %d faults did not fire, %d of %d cases executed", h.baseBad.Load(), h.notFired.Load(), h.executed.Load(), len(all)))
